@@ -1,6 +1,7 @@
 import RegexVerif.Sexp
 import RegexVerif.Model.Compile
 import RegexVerif.Model.Backtrack
+import RegexVerif.Model.Quick
 import RegexVerif.Driver.SpecIO
 import RegexVerif.Driver.Writer
 
@@ -152,15 +153,59 @@ structure Side where
   sl : Nat → Nat
   /-- the tree option RightToLeft: the direction of the attempt -/
   rtl : Bool
+  /-- the bool-only program (`Writer.emitQuick`), when `Write` builds one -/
+  quick : Option Code.Prog
+  /-- `CaptureSlotInUse` -/
+  inUse : List Bool
 
 def mkSide (ti : TreeInfo) (root : GoNode) (names : List (List Nat)) (pat : Pat) (strict : Bool) : Side :=
   { prog := Writer.emit ti root,
     cls := ((Writer.codeFromTree (Writer.mainCfg ti) root).2.sets.map (Compile.readSet names)).toArray,
     pat := pat, strict := strict,
-    sl := fun g => (Writer.mapCapnum (Writer.mainCfg ti) (g : Int)).toNat, rtl := ti.rtl }
+    sl := fun g => (Writer.mapCapnum (Writer.mainCfg ti) (g : Int)).toNat, rtl := ti.rtl,
+    quick := Writer.emitQuick ti root, inUse := Writer.slotsInUse ti root }
 
-/-- one attempt at `i` (`\G` origin `i`): `(ok none)` / `(ok idx len)` when the interpreter model on the
-    written program and the specification agree, `(diff what)` when not, `(fuel)` when the fuel ran out -/
+/-- the live prefix of capture slot `c` -/
+def live (s : VM.VMState) (c : Nat) : List Int :=
+  (MatchBuilder.arr s.cap.m c).take (2 * MatchBuilder.cnt s.cap.m c)
+
+/-- the bool-only program on the same input (`Props.C02.compile_correct_quick`): `(noquick)` when `Write` builds none;
+    `(qfuel)`; `(qdiff what)` when it faults or its final state disagrees with the main program's final state `ms` —
+    verdict, on a match the final text position, the captures of every slot in use, no capture in a dropped slot —;
+    otherwise `(q none)` / `(q idx len end)`: the span of group 0 and the final text position -/
+def quickAt (S : Side) (env : VM.Env) (fuel : Nat) (i : Nat) (ms : Option VM.VMState) : Sexp :=
+  match S.quick with
+  | none => mk "noquick" []
+  | some qp =>
+    match VM.init qp (i : Int) with
+    | .error f => mk "qdiff" [.atom ("fault-" ++ f.name)]
+    | .ok q0 =>
+      match (VM.run qp env fuel q0).1 with
+      | .fault f => mk "qdiff" [.atom ("fault-" ++ f.name)]
+      | .fuel _ => mk "qfuel" []
+      | .done qs =>
+        let ans :=
+          if VM.matched qs then
+            match live qs 0 with
+            | [idx, len] => mk "q" [ofInt idx, ofInt len, ofInt qs.textpos]
+            | _ => mk "qdiff" [.atom "slot0-shape"]
+          else mk "q" [.atom "none"]
+        match ms with
+        | none => ans
+        | some s =>
+          if VM.matched qs != VM.matched s then mk "qdiff" [.atom "matched"]
+          else if !VM.matched qs then ans
+          else if qs.textpos != s.textpos then mk "qdiff" [.atom "textpos"]
+          else
+            let bad := (List.range qp.capsize).find? fun c =>
+              if c == 0 || S.inUse.getD c true then live qs c != live s c else live qs c != []
+            match bad with
+            | some c => mk "qdiff" [.atom "slot", ofNat c]
+            | none => ans
+
+/-- one attempt at `i` (`\G` origin `i`): `(at <main> <quick>)`.  `<main>`: `(ok none)` / `(ok idx len)` when the
+    interpreter model on the written program and the specification agree, `(diff what)` when not, `(fuel)` when the
+    fuel ran out; `<quick>`: see `quickAt` -/
 def attemptAt (S : Side) (inp : Input) (fuel : Nat) (i : Nat) : Sexp :=
   let se : Spec.Env := { text := inp.text, textstart := i, named := inp.named, word := inp.word, fold := [] }
   let env : VM.Env :=
@@ -171,34 +216,50 @@ def attemptAt (S : Side) (inp : Input) (fuel : Nat) (i : Nat) : Sexp :=
       toLower := id, wordChar := fun r => se.isWord r, ecmaWordChar := fun _ => false,
       endzStrict := S.strict, ecma := false }
   match VM.init S.prog (i : Int) with
-  | .error f => mk "diff" [.atom ("fault-" ++ f.name)]
+  | .error f => mk "at" [mk "diff" [.atom ("fault-" ++ f.name)], quickAt S env fuel i none]
   | .ok s0 =>
     match (VM.run S.prog env fuel s0).1 with
-    | .fault f => mk "diff" [.atom ("fault-" ++ f.name)]
-    | .fuel _ => mk "fuel" []
+    | .fault f => mk "at" [mk "diff" [.atom ("fault-" ++ f.name)], quickAt S env fuel i none]
+    | .fuel _ => mk "at" [mk "fuel" [], quickAt S env fuel i none]
     | .done s =>
+      let q := quickAt S env fuel i (some s)
       let r := Spec.attemptRun se S.pat S.rtl i      -- = Spec.attempt (Lemmas.Backtrack.attemptRun_eq)
-      if VM.matched s != r.isSome then mk "diff" [.atom "matched"]
-      else match r with
-        | none => mk "ok" [.atom "none"]
-        | some st =>
-          let bad := (List.range S.prog.capsize).find? fun c =>
-            (MatchBuilder.arr s.cap.m c).take (2 * MatchBuilder.cnt s.cap.m c) != Compile.slotLog S.sl st.caps c
-          match bad with
-          | some c => mk "diff" [.atom "slot", ofNat c]
-          | none =>
-            if s.textpos != (st.pos : Int) then mk "diff" [.atom "textpos"]
-            else
-              let g0 := (lastCap st.caps 0).getD (0, 0)
-              mk "ok" [ofNat g0.1, ofNat g0.2]
+      let a :=
+        if VM.matched s != r.isSome then mk "diff" [.atom "matched"]
+        else match r with
+          | none => mk "ok" [.atom "none"]
+          | some st =>
+            let bad := (List.range S.prog.capsize).find? fun c =>
+              (MatchBuilder.arr s.cap.m c).take (2 * MatchBuilder.cnt s.cap.m c) != Compile.slotLog S.sl st.caps c
+            match bad with
+            | some c => mk "diff" [.atom "slot", ofNat c]
+            | none =>
+              if s.textpos != (st.pos : Int) then mk "diff" [.atom "textpos"]
+              else
+                let g0 := (lastCap st.caps 0).getD (0, 0)
+                mk "ok" [ofNat g0.1, ofNat g0.2]
+      mk "at" [a, q]
+
+/-- the two "in use" analyses on one tree (`Props.C02.toPat_stripTree`): `none` when `Write` builds no bool-only
+    program, `same` when the tree the second writer effectively compiles (`Writer.stripTree`) translates to
+    `Spec.quickPat` of the translation, `differs` / `untranslated` otherwise -/
+def quickPatStatus (X : Compile.TP) (ti : TreeInfo) (root : GoNode) (p : Pat) : String :=
+  match Writer.emitQuick ti root with
+  | none => "none"
+  | some _ =>
+    match Compile.toPatRoot X ti.rtl (Writer.stripTree (Writer.quickCfg ti root) root) with
+    | none => "untranslated"
+    | some q => if toString (ofPat q) == toString (ofPat (Spec.quickPat p)) then "same" else "differs"
 
 end Cc
 
 /-- `(c01 compile strict <info> <node> fuel (<input>…))` with `<input>` = `(input (text r…) (named (id r)…) (word r…))` →
-    `(cc (covered T<k>)|(notcovered <reason>) <pat>|none (names (byte…)…) (<attempt at 0> … <attempt at len>)…)`:
+    `(cc (covered T<k>)|(notcovered <reason>) <pat>|none (names (byte…)…) (quick none|same|differs|untranslated|na)
+    (<attempt at 0> … <attempt at len>)…)`:
     the coverage class by `Compile.InFrag`, `Compile.toPatRoot X ti.rtl root` in the syntax of `gen.FromGoTree`,
     the category names of the tree in id order (`Compile.namesOf`, id = 100 + index), and, for a covered tree
-    only, per input the attempts at every position. -/
+    only, the relation of the stripped tree's translation to `Spec.quickPat` (`Cc.quickPatStatus`) and per input the
+    attempts at every position, each `(at <main program vs specification> <bool-only program vs main program>)`. -/
 def handleCompile (args : List Sexp) : String :=
   match args with
   | [strict, info, node, fuel, inputs] =>
@@ -222,7 +283,10 @@ def handleCompile (args : List Sexp) : String :=
             | some inp => .list ((List.range (inp.text.length + 1)).map (Cc.attemptAt S inp fuel))
             | none => .atom "bad-input"
         | _, _ => []
-      toString (mk "cc" ([cls, patS, mk "names" (names.map ofNats)] ++ runs))
+      let qst : String := match cov, pat with
+        | some _, some p => Cc.quickPatStatus X ti root p
+        | _, _ => "na"
+      toString (mk "cc" ([cls, patS, mk "names" (names.map ofNats), mk "quick" [.atom qst]] ++ runs))
     | _, _, _, _, _ => "(bad-op)"
   | _ => "(bad-op)"
 
